@@ -44,8 +44,8 @@ ASSUMPTIONS = [
     "I/O errors: an injected OSError makes the call fail without effect (a failed write leaves a prefix in .dirty, which nobody "
     "reads); a failed fsync leaves the file unsynced; injection is by wrapping open/os.fsync/os.replace/os.unlink/os.stat/os.open "
     "in the child process (ENOSPC, EIO), not by the kernel",
-    "recover_is_snapshot_faulty is proved under StartOK (exists() of the uncommitted file and the unlink of a rejected uncommitted "
-    "file do not fail at start-up); without it the model and the real code lose the state (F-C10-3, Props/C10.faulty_goal_fails)",
+    "the finalize of the model is the one of the current source (regenerated constant finalizeVerifiesUntrusted, 99181a7); for the "
+    "code before the fix the fault statement is refuted (Props/C10.recover_is_snapshot_faulty_old_refuted, F-C10-3)",
     "pickle is an injective self-delimiting codec (Cfg.Lawful); version upgrades of old states are abstract (`Cfg.up`)",
     "little-endian host for struct.pack('=L') (checked at run time, otherwise skipped)",
     "the sqlite build-id cache is outside the model",
@@ -1454,28 +1454,14 @@ def fault_oracle(ctx):
                 continue
             what, kind = bad
             case = {"kind": "fault", "history": h}
-            if kind == "unreadable" and key == "full" and _uses_unverified_commit(h):
-                # the genuine defect F-C10-3 (see the report): reported under its own signature; until it is listed in
-                # known-findings.json it is recorded in the notes only (the check must not fail on the unchanged tree)
-                ctx.notes["F-C10-3_reproduced"] = ctx.notes.get("F-C10-3_reproduced", 0) + 1
-                ctx.notes.setdefault("F-C10-3_first_history", {"seed_index": i, "sessions": [
-                    {"init": s["init"], "calls": [c["m"] for c in s["calls"]], "fin": s["fin"], "crash": s.get("crash")}
-                    for s in h["sessions"]]})
-                if _finding_listed(FAULT_SIG_UNREADABLE):
-                    ctx.violation(what + " (a rejected uncommitted file that could not be deleted is committed unverified by finalize)",
-                                  case, FAULT_SIG_UNREADABLE)
+            if kind == "unreadable" and _uses_unverified_commit(h):
+                # F-C10-3 (fixed in /repo by 99181a7): a rejected uncommitted file that could not be deleted at start-up
+                # is committed unverified by finalize
+                ctx.violation(what + " (a rejected uncommitted file that could not be deleted is committed unverified by finalize)",
+                              case, FAULT_SIG_UNREADABLE)
                 continue
             ctx.violation(what, case, "fault-" + kind)
     ctx.notes["t_fault_oracle_s"] = round(time.time() - t0, 1)
-
-
-def _finding_listed(sig):
-    try:
-        kf = json.load(open(os.path.join(os.path.dirname(os.path.dirname(os.path.dirname(os.path.abspath(__file__)))),
-                                         "known-findings.json")))
-        return any(k.get("signature") == sig and k.get("status") == "known" for k in kf.get("findings", []))
-    except Exception:  # noqa
-        return False
 
 
 def _empty_view_cached(ctx, U):
@@ -2008,8 +1994,8 @@ MANIFEST = {
             "Independently the crash-image replay on the implementation is the property oracle. I/O errors (ENOSPC/EIO at every "
             "file-system call of __save/__commit/finalize/__init__, exception handling transliterated) are inside the model: with "
             "arbitrary faults and crashes the next start loads the state committed by the last error-free finalize or a snapshot "
-            "completely saved since, PROVIDED the start-up commit can get rid of a rejected uncommitted file (StartOK; without it the "
-            "statement is refuted in Lean and reproduced on the implementation: F-C10-3); a later error-free save + finalize makes the "
+            "completely saved since (no restriction on the faults; for the code before 99181a7, whose finalize commits a left-over "
+            "uncommitted file unverified, the statement is refuted in Lean and was reproduced on the implementation: F-C10-3); a later error-free save + finalize makes the "
             "then-current state durable from any directory content; a failed save changes nothing but .dirty; lock facts under faults. "
             "Tie and oracle: OSErrors injected into real _BobState runs in a child process.",
     "note": "trusted: Lean kernel, harness/props/c10.py (incl. its strace parser and POSIX bookkeeping), tools/consts/c10.py, CPython "
